@@ -112,7 +112,7 @@ def c03_m_tx_wind_unwind(ctx, v):
                 def present(k_):
                     return z3.Or(*[z3.And(p, value_eq(ex, ek, k_)) for p, ek, ev in post.entries]) if post.entries else z3.BoolVal(False)
                 def spendable(k_):
-                    return z3.Or(*[z3.And(p, value_eq(ex, ek, k_), ev if isinstance(ev, z3.BoolRef) else z3.BoolVal(True)) for p, ek, ev in post.entries]) if post.entries else z3.BoolVal(False)
+                    return z3.Or(*[z3.And(p, value_eq(ex, ek, k_), ev.v if isinstance(ev.v, z3.BoolRef) else z3.BoolVal(True)) for p, ek, ev in post.entries]) if post.entries else z3.BoolVal(False)
                 checks = []
                 gone, created = (ins, outs_) if lc_val else (outs_, ins)
                 for s in gone:
